@@ -172,7 +172,7 @@ def cases(tier, seed):
 def main():
     tier, seed = suite.tier_seed()
     return suite.run_property(
-        "C09", cases(tier, seed),
+        "C09", cases(tier, seed), rejection_is_violation=True,
         technique="SMT (z3, QF_UFBV) equivalence of the symbolically executed emitted Simplicity DAG and a source-level counter loop; exit iteration symbolic; accumulator updates uninterpreted",
         functions=["compile.rs: for_while (for_while_0, adapt_f, task stack), Call::compile (ForWhile)",
                    "ast.rs: for_while signature/typing (accepts the generated programs)", "compile.rs: Match::compile inside the body"],
@@ -183,5 +183,5 @@ def main():
         assumptions=["z3 4.8.12 is sound on QF_UFBV", "simplicity-lang type finalisation supplies the DAG's types",
                      "source evaluator (simsym/src.py: for_while) is the specification"],
         min_validated=30,
-        timeout_s=300,
+        timeout_s=120, case_budget_s=200,
     )
